@@ -335,6 +335,7 @@ class FakeSock:
         if item == RESET:
             self.inq.pop(0)
             w.log(ev='read', n=self.n, got='reset')
+            self.was_reset = True       # (a connection the peer has reset is no longer connected: shutdown() on it fails, close() works)
             raise ConnectionResetError(errno.ECONNRESET, 'Connection reset by peer')
         chunk = bytes(item[:size])
         rest = item[size:]
@@ -349,6 +350,11 @@ class FakeSock:
         return chunk
 
     def shutdown(self, how):
+        if getattr(self, 'was_reset', False) and self.state == 'connected' and not self.closed:
+            # the peer has reset the connection: shutdown() fails (ENOTCONN on Linux).  The tool's close helpers then skip close(), and
+            # the descriptor is released when the last reference to the socket goes - which is at once; the harness records the close here
+            self._close()
+            raise OSError(errno.ENOTCONN, 'Transport endpoint is not connected')
         if self.state not in ('connected', 'listening') or self.closed:
             raise OSError(errno.ENOTCONN, 'Transport endpoint is not connected')
         self._close()
